@@ -30,7 +30,14 @@ impl<Callbacks: crate::callbacks::Callbacks> vte::Perform
     for WrappedScreen<Callbacks>
 {
     fn print(&mut self, c: char) {
-        if c == '\u{fffd}' || ('\u{80}'..'\u{a0}').contains(&c) {
+        if ('\u{80}'..'\u{a0}').contains(&c) {
+            // vte passes a C1 control character to print() rather than
+            // execute() when its two utf-8 bytes arrive in separate chunks.
+            // report it the same way in both cases.
+            if let Ok(b) = u8::try_from(u32::from(c)) {
+                self.execute(b);
+            }
+        } else if c == '\u{fffd}' {
             self.callbacks.unhandled_char(&mut self.screen, c);
         } else {
             self.screen.text(c);
